@@ -63,40 +63,53 @@ func c11UnitizeCall(g *genFile, rel, fn, prefix string) {
 	if fd == nil || fd.Body == nil {
 		return
 	}
-	var call *ast.CallExpr
+	// every call of unitize / unitizeFloat in the wrapper must pass the same step, delimiter and table
+	var calls []*ast.CallExpr
 	ast.Inspect(fd.Body, func(n ast.Node) bool {
 		if c, ok := n.(*ast.CallExpr); ok {
-			if id, ok := c.Fun.(*ast.Ident); ok && id.Name == "unitize" {
-				call = c
+			if id, ok := c.Fun.(*ast.Ident); ok && (id.Name == "unitize" || id.Name == "unitizeFloat") {
+				calls = append(calls, c)
 			}
 		}
 		return true
 	})
-	if call == nil || len(call.Args) != 5 {
-		fail("%s: %s does not call unitize with 5 arguments", rel, fn)
+	if len(calls) == 0 {
+		fail("%s: %s does not call unitize", rel, fn)
 		return
 	}
-	step, ok := evalInt(call.Args[1], nil)
-	if !ok {
-		fail("%s: %s: step is not an integer literal", rel, fn)
-		return
-	}
-	delim, ok := strLit(call.Args[3])
-	if !ok {
-		fail("%s: %s: delimiter is not a string literal", rel, fn)
-		return
-	}
-	tbl := ""
-	if se, ok := call.Args[4].(*ast.SliceExpr); ok {
-		if id, ok := se.X.(*ast.Ident); ok {
-			tbl = id.Name
+	var stepS, delim, tbl string
+	for i, call := range calls {
+		if len(call.Args) != 5 {
+			fail("%s: %s does not call unitize with 5 arguments", rel, fn)
+			return
 		}
+		step, ok := evalInt(call.Args[1], nil)
+		if !ok {
+			fail("%s: %s: step is not an integer literal", rel, fn)
+			return
+		}
+		d, ok := strLit(call.Args[3])
+		if !ok {
+			fail("%s: %s: delimiter is not a string literal", rel, fn)
+			return
+		}
+		t := ""
+		if se, ok := call.Args[4].(*ast.SliceExpr); ok {
+			if id, ok := se.X.(*ast.Ident); ok {
+				t = id.Name
+			}
+		}
+		if t == "" {
+			fail("%s: %s: unit table is not `name[:]`", rel, fn)
+			return
+		}
+		if i > 0 && (step.ExactString() != stepS || d != delim || t != tbl) {
+			fail("%s: %s: the unitize calls disagree on step, delimiter or table", rel, fn)
+			return
+		}
+		stepS, delim, tbl = step.ExactString(), d, t
 	}
-	if tbl == "" {
-		fail("%s: %s: unit table is not `name[:]`", rel, fn)
-		return
-	}
-	g.def(prefix+"_step", "Z", coqZ(step.ExactString()), rel+": "+fn)
+	g.def(prefix+"_step", "Z", coqZ(stepS), rel+": "+fn)
 	g.def(prefix+"_delim", "list N", coqBytes(delim), rel+": "+fn)
 	g.def(prefix+"_units", "list (list N)", tbl, rel+": "+fn+" passes "+tbl+"[:]")
 }
